@@ -28,7 +28,7 @@ OInit == /\ tid \in 1..Len(Traces) /\ l = 1
          /\ delivered = 0 /\ lineSeen = FALSE /\ awaiting = FALSE /\ pending = "none" /\ mwIdx = 0
          /\ timer = "armed" /\ tp = "open" /\ wire = <<>> /\ torn = FALSE
          /\ calls = [h |-> 0, u |-> 0, mw |-> 0] /\ peerGone = FALSE /\ complete = FALSE
-         /\ aflags = <<TRUE, TRUE>> /\ consulted = TRUE
+         /\ aflags = <<TRUE, TRUE, TRUE>> /\ consulted = TRUE
 ONext ==
   /\ l <= Len(Steps) /\ l' = l + 1 /\ UNCHANGED <<tid, cfg, lineSeen, awaiting>>
   /\ LET o == Ev.o IN
@@ -45,9 +45,11 @@ ONext ==
      \* the two action properties of C15, evaluated on this step
      /\ aflags' = << (Ev.a = "TimerFire" /\ timer = "armed" /\ complete) => (o.wire = wire /\ o.tp = tp),
                      (Ev.a = "TimerFire" /\ timer = "armed" /\ ~complete /\ tp = "open")
-                         => (Len(o.wire) = 1 /\ o.wire[1].st = 40 /\ o.tp = "closing") >>
+                         => (Len(o.wire) = 1 /\ o.wire[1].st = 40 /\ o.tp = "closing"),
+                     \* C04: the request timer never pre-empts the chain's refusal of a complete request
+                     (Ev.a = "TimerFire" /\ timer = "armed" /\ complete /\ ~ChainAllowed) => (o.wire = wire /\ o.tp = tp) >>
 Flags == << OneResponse, WellFormed, NeverTorn, ThenClosed, GateC04, NoneBeyondRefusal, FirstRejectionWins,
             AtMostOnce, TimerWhileWaiting, AnsweredWhenQuiet, SegIndep, OnlyValidReachHandler, Progress,
-            aflags[1], aflags[2], consulted >>
+            aflags[1], aflags[2], consulted, aflags[3] >>
 Report == PrintT(<<"REACHED", tid, l, Len(Steps) + 1, Flags>>)
 =============================================================================
